@@ -66,7 +66,9 @@ def gen_meta(rng, focus=None):
             # unknown to a Metadata server: junk names, Data-server methods, the OTHER server kind's init request name
             meth = rng.choice(['XYZ', 'SUB', 'DPI2', 'NUSX', 'DPI', 'DPI', 'USB', 'RAC', 'KEEPALIVE',
                                # names that are no protocol methods but spell attributes of the server object
-                               'mpi', 'Mpi', 'init', 'INIT', 'request_manager_started', 'close', 'exception'])
+                               'mpi', 'Mpi', 'init', 'INIT', 'request_manager_started', 'close', 'exception',
+                               # ... or are contained in / contain the name of a method
+                               'PI', 'MP', 'I', 'M', 'NU', 'US', 'MPIX', 'XMPI', 'NUSNUA'])
         text = b'|'.join([wid.encode(), meth.encode()] + toks) + b'\r\n'
         if outcome is None:
             x = rng.random()
@@ -139,7 +141,7 @@ def gen_data(rng, focus=None):
             text = ('%s|SUB|X|%s\r\n' % (wid, item)).encode()
             lines.append(Line(text, [sym('req'), A(r), B(False), B(True)], r, 'SUB', None, 'valid', 'req'))
         elif x < 0.92:
-            um = rng.choice(['NUS', 'MPI', 'MPI', 'XYZ', 'sub', 'dpi', 'init', 'request_manager_started'])
+            um = rng.choice(['NUS', 'MPI', 'MPI', 'XYZ', 'sub', 'dpi', 'init', 'request_manager_started', 'PI', 'DP', 'D', 'I', 'SU', 'UB', 'SUBX', 'DPIX'])
             text = ('%s|%s|S|u|S|p\r\n' % (wid, um)).encode()
             lines.append(Line(text, [sym('req'), A(r), B(True), B(False)], r, um, None, 'valid', 'req'))
         else:
@@ -272,6 +274,54 @@ def work(arg):
         r = shellrun.run(sc, ch)
         out.append(digest(r, pid))
     return out
+
+
+def start_race_work(arg):
+    """Server.start on a scheduled thread, the first chunk(s) already readable, LINE-granular preemption: what the reader
+    does with early requests races whatever start() still has to do after it created the reader.  Oracle only."""
+    import logging
+    import os
+    import sys
+    logging.disable(logging.CRITICAL)
+    sys.stderr = open(os.devnull, 'w')
+    pid, seed, n = arg
+    rng = random.Random(seed)
+    out = []
+    for i in range(n):
+        sc = gen(rng)
+        sc.start_managed = True
+        sc.app_close = 0
+        s2 = rng.getrandbits(32)
+        # thread priorities (PCT) in half of the runs: a uniformly random choice at every line would hardly ever let the
+        # reader get through a whole request while the starting thread sits between two lines
+        ch = dsched.PCTChooser(random.Random(s2), depth=rng.choice([1, 2, 3]), horizon=400) if i % 2 else dsched.RandomChooser(random.Random(s2))
+        r = shellrun.run(sc, ch, fine=True, fine_seed=s2)
+        viol = []
+        for detail, key in shellrun.ORACLES[pid](r):
+            viol.append({'case': {'scenario': scenario_to_json(r.sc), 'schedule': [c for c, _ in r.taken], 'source': 'fine', 'fine_seed': s2},
+                         'detail': detail, 'key': dict(key), 'kind': 'schedule'})
+        if r.crashes:
+            viol.append({'case': {'scenario': scenario_to_json(r.sc), 'schedule': [c for c, _ in r.taken], 'source': 'fine', 'fine_seed': s2},
+                         'detail': 'a library thread / pool job died with %r' % (r.crashes[0],), 'key': {'kind': 'crash'}, 'kind': 'schedule'})
+        out.append({'viol': viol, 'status': r.status})
+    return out
+
+
+def start_races(ctx, res, pid, n):
+    rng = ctx.rng
+    jobs = [(pid, rng.getrandbits(40), max(1, n // 8)) for _ in range(8)]
+    with multiprocessing.get_context('fork').Pool(8) as pool:
+        results = pool.map(start_race_work, jobs, chunksize=1)
+    seen = set()
+    for out in results:
+        for d in out:
+            res.evaluations += 1
+            res.count('start-race (line-granular, oracle only)' + ('' if d['status'] == 'quiescent' else ':' + d['status']))
+            for v in d['viol']:
+                k = repr(sorted(v['key'].items()))
+                if k not in seen:
+                    res.oracle_violations.append(v)
+                seen.add(k)
 
 
 def run_many(pid, seed, n, nproc=8):
